@@ -5,7 +5,9 @@ package hdf5
 import (
 	"bytes"
 	"crypto/sha256"
+	"encoding/binary"
 	"fmt"
+	"hash/crc32"
 	"os"
 	"path/filepath"
 	"sort"
@@ -14,6 +16,7 @@ import (
 	"sync/atomic"
 	"testing"
 
+	"github.com/scigolib/hdf5/internal/verif/h5ref"
 	"github.com/scigolib/hdf5/internal/verif/vkit"
 )
 
@@ -283,6 +286,65 @@ func vfC10RefBases(max int) []vfBase {
 	return out
 }
 
+// vfC10Superblock compares the superblock of the file after a session with the one before it,
+// field by field and by the layout of the version found before the session (8-byte offsets and
+// lengths, which is what the library and the bundled small reference files use; other widths
+// are not judged): only the end-of-file address (and, in versions 2/3, the checksum) may
+// change; the end-of-file address must equal the file size when the file grew and stay what it
+// was otherwise; a version 2/3 checksum must be a checksum of the bytes before it.
+func vfC10Superblock(before, after []byte) string {
+	sig := "\x89HDF\r\n\x1a\n"
+	if len(before) < 96 || len(after) < 96 || string(before[:8]) != sig {
+		return ""
+	}
+	if string(after[:8]) != sig {
+		return "signature changed"
+	}
+	ver := before[8]
+	var eofAt, end int
+	var ckAt = -1
+	switch ver {
+	case 0, 1:
+		if before[13] != 8 || before[14] != 8 {
+			return ""
+		}
+		eofAt = 24 + 16
+		if ver == 1 {
+			eofAt += 4
+		}
+		end = eofAt + 16 + 40 // driver address and the root symbol table entry
+	case 2, 3:
+		if before[9] != 8 || before[10] != 8 {
+			return ""
+		}
+		eofAt, ckAt, end = 28, 44, 48
+	default:
+		return ""
+	}
+	for k := 0; k < end; k++ {
+		if k >= eofAt && k < eofAt+8 || ckAt >= 0 && k >= ckAt && k < ckAt+4 {
+			continue
+		}
+		if before[k] != after[k] {
+			return fmt.Sprintf("version %d superblock byte %d changed: %#02x -> %#02x", ver, k, before[k], after[k])
+		}
+	}
+	eofB, eofA := binary.LittleEndian.Uint64(before[eofAt:]), binary.LittleEndian.Uint64(after[eofAt:])
+	switch {
+	case len(after) > len(before) && eofA != uint64(len(after)):
+		return fmt.Sprintf("file grew from %d to %d bytes, end-of-file address %d -> %d", len(before), len(after), eofB, eofA)
+	case len(after) == len(before) && eofA != eofB:
+		return fmt.Sprintf("file size unchanged (%d), end-of-file address %d -> %d", len(after), eofB, eofA)
+	}
+	if ckAt >= 0 {
+		// (the library stores a CRC-32 where the format wants lookup3: finding of C05, not judged here)
+		if got, want, crc := binary.LittleEndian.Uint32(after[ckAt:]), h5ref.Lookup3(after[:ckAt]), crc32.ChecksumIEEE(after[:ckAt]); got != want && got != crc {
+			return fmt.Sprintf("superblock checksum %#08x is neither the lookup3 (%#08x) nor the CRC-32 (%#08x) of the bytes before it", got, want, crc)
+		}
+	}
+	return ""
+}
+
 func TestVerif_C10(t *testing.T) {
 	r := vkit.Start(t, "C10", "model_checking")
 	defer r.Finish()
@@ -422,6 +484,14 @@ func TestVerif_C10(t *testing.T) {
 					}
 					r.Fail(fmt.Sprintf("%s/%s/file-unopenable-after-session", kind, cls), detail)
 					break
+				}
+				if why := vfC10Superblock(before, after); why != "" {
+					detail["superblock"] = why
+					cls := "noop"
+					if len(s) > 0 {
+						cls = s[len(s)-1].Op
+					}
+					r.Fail(fmt.Sprintf("%s/%s/superblock-damaged", kind, cls), detail)
 				}
 				if okOps == 0 {
 					if !bytes.Equal(before, after) {
